@@ -73,11 +73,26 @@ CHECKS = [
                 "(stated assumptions); next_media_partname: every /ppt/media/media* part carries a number. Termination of "
                 "_next_ph_name's search is not proved. F6, F7, F8 found by these obligations and repaired by fix: commits.",
     },
+    {
+        "property_id": "C08",
+        "technique": "contract-based deductive verification (pyvc over the real workbook writers; generic series index, loop contracts, unwinding assertion; z3)",
+        "category": "proof",
+        "text": "The *_ref formulas (CategoryWorkbookWriter, XyWorkbookWriter, BubbleWorkbookWriter) and the cells written by the real "
+                "_populate_worksheet/_write_series/_write_categories/_write_cat_column are computed symbolically for a generic series "
+                "k of an unbounded chart-data sequence with arbitrary series lengths; obligations: reference column/rows == written "
+                "cell, range size == point count, XY/bubble tables of successive series do not overlap (offset recurrence), "
+                "_column_reference is the bijective base-26 numeral for 1..16384 (loop unwound 3x with the unwinding assertion "
+                "discharged) and raises ValueError outside, data_point_offset/series_index by loop invariants, date serials vs "
+                "the workbook's date system.",
+        "note": "Assumed: XlsxWriter write(r,c,v)/write_column(r,c,vs) address 0-based cells and store dates in the 1900 system "
+                "(probed natively by the bounded C08.workbook_readback job, never counted as proved); Categories.levels yields "
+                "offsets 0 <= off < leaf_count (C07 contract); category depth <= 26. Known finding F14 (date1904 charts).",
+    },
 ]
 
 _PENDING = "check not built yet in this session (planned, see DESIGN.md section 5)"
 NOT_APPLICABLE = [
     {"property_id": p, "reason": _PENDING}
-    for p in ["C01", "C02", "C03", "C04", "C05", "C07", "C08", "C09", "C12", "C13", "C14", "C15", "C16",
+    for p in ["C01", "C02", "C03", "C04", "C05", "C07", "C09", "C12", "C13", "C14", "C15", "C16",
               "C18", "C19"]
 ]
